@@ -131,3 +131,25 @@ impl Socket for HSock {
     fn take_error(&mut self) -> IoResult<Option<SocketError>> { Ok(None) }
     fn icmp_error_info(&mut self) -> IoResult<std::net::IpAddr> { Ok(std::net::IpAddr::V4(std::net::Ipv4Addr::UNSPECIFIED)) }
 }
+
+/// Reset every observation / outcome static (between native witness-search trials).
+#[allow(static_mut_refs)]
+pub(super) fn reset() {
+    unsafe {
+        sockstate::READ_LEN = 0;
+        sockstate::READ_ERR = 0;
+        sockstate::RECV_ADDR_KIND = 0;
+        sockstate::RECV_ADDR = 0;
+        sockstate::SEND_CALLS = 0;
+        sockstate::TTL_SET = None;
+        sockstate::TOS_SET = None;
+        sockstate::HOPS_SET = None;
+        sockstate::BIND_ADDR = None;
+        sockstate::CONNECT_ADDR = None;
+        sockstate::SEND_ADDR = None;
+        sockstate::NEW_CALLS = 0;
+        sockstate::BIND_OUTCOME = 0;
+        sockstate::CONNECT_OUTCOME = 0;
+        sockstate::SEND_OUTCOME = 0;
+    }
+}
